@@ -262,7 +262,7 @@ Definition cb_events (x : ctx) (l : list (cb State aid)) : list event := map (EC
 (* the call at the head of the program returns r *)
 Definition ret (w : world) (t : N) (r : role) (prog : list call) (res : result) : world :=
   match prog with
-  | [] => w
+  | [] => set_thread w t (TClient r [] PIdle)   (* unreachable: a thread inside a call has that call at the head *)
   | c :: rest => emit (set_thread w t (TClient r rest PIdle)) (ERet t c res)
   end.
 
@@ -363,8 +363,12 @@ Definition step_client (w : world) (t : N) (r : role) (prog : list call) (pc : c
       | _ => Some (ret w t r prog RUnit)
       end
   | PTaskStart k visible =>
-      if visible then Some (set_thread (emit w (ECb (XThread t) (CbEffectRun k))) t (TClient r prog PIdle))
-      else invoke w t r prog true
+      match r with
+      | Worker _ =>
+          if visible then Some (set_thread (emit w (ECb (XThread t) (CbEffectRun k))) t (TClient r prog PIdle))
+          else invoke w t r prog true
+      | Client => Some (set_thread w t (TClient r prog PIdle))   (* unreachable: only pool tasks start here *)
+      end
   | PDispatchTx e a =>
       if tx_free w then
         if w_tx_open w then
